@@ -126,6 +126,10 @@ function focusNodes(r, fs_) {
     () => X.bin('||', X.bin('&&', X.id('flag'), X.id('list')), items),
     () => items,
     () => X.id('list'),
+    // an object is iterated: items are addressed by key, positions shift when keys come and go
+    () => X.id('obj'),
+    () => X.bin('||', X.id('ob'), X.id('obj')),
+    () => X.mem(X.id('obj'), 'x'),
   ]
   const it = (f) => X.mem(X.id('item'), f)
   const body = () => ({ t: 'el', tag: 'q', attrs: [{ fam: 'plain', name: 'v', value: M.ev(it('v')) }, { fam: 'data:', name: 'x', value: M.ev(it('x')) }], children: [{ t: 'text', v: M.mv('#', it('id'), ':', X.id('index'), ':', X.id(r.pick(['a', 'flag', 's'])), ':', X.idx(it('sub'), X.num('1'))) }] })
@@ -170,7 +174,8 @@ export function makeCases(ctx, n, fixed = null) {
     const ops = []
     for (let i = 0; i < nOps; i++) { const o = genOp(r, D, FIELDS, undefined, prefer); ops.push(o); applyOp(D, o) }
     const mode = r.bool(0.5) ? 'virtualTree' : 'default'
-    const synthetic = r.bool(0.25) ? r.pick(['exact', 'coarse', 'true']) : null
+    // a key can only be removed with an exact tree when the tree is handed over directly
+    const synthetic = ops.some((o) => o.op === 'key') ? r.pick(['exact', 'exact', 'coarse', null]) : r.bool(0.25) ? r.pick(['exact', 'coarse', 'true']) : null
     cases.push({ id: cases.length, caseSeed, genOpts, fs: fs_, sources, dataSeed, ops, mode, synthetic })
   }
   return cases
